@@ -14,6 +14,9 @@ COMMON_ASSUMPTIONS = [
 
 SPECS = {}
 
+# reasons for properties not (yet) claimed
+NA = {}
+
 SPECS["C10"] = dict(
     level="model_checking",
     outside="manifests larger than the stated block/token counts; python keep.py/arvfile.py callers",
@@ -38,6 +41,36 @@ SPECS["C16"] = dict(
         dict(name="scratch", pkg="lib/dispatchcloud", harness=["dispatchcloud/c16_choose.go", "dispatchcloud/util.go"], entry="GosymH_C16_scratch",
              params=dict(quick=dict(mounts=2), thorough=dict(mounts=3)), witnesses=["done", "pdh-image"]),
         dict(name="order", pkg="lib/dispatchcloud/scheduler", harness=["scheduler/stubs.go", "scheduler/runqueue.go"], entry="GosymH_C16_order",
-             params=dict(quick=dict(containers=2, types=2), thorough=dict(containers=3, types=1)), witnesses=["a-container-started", "a-container-unlocked", "done"]),
+             params=dict(quick=dict(containers=2, types=1), thorough=dict(containers=3, types=1)), witnesses=["a-container-started", "a-container-unlocked", "done"]),
+        dict(name="order2types", tier="thorough", pkg="lib/dispatchcloud/scheduler", harness=["scheduler/stubs.go", "scheduler/runqueue.go"], entry="GosymH_C16_order",
+             params=dict(quick=dict(containers=2, types=2)), witnesses=["a-container-started", "a-container-unlocked", "done"]),
+    ],
+)
+
+SPECS["C12"] = dict(
+    level="model_checking",
+    outside="more than 4 (quick) / 5 (thorough) services (the statement speaks of up to 32); python keep.py; MD5 ties between distinct services",
+    assumptions=["MD5 modelled as an uninterpreted function per input length; pairwise distinct weights assumed (no MD5 ties)",
+                 "map iteration order explored exhaustively (all permutations) for the sorter harness"],
+    runs=[
+        dict(name="sorter", pkg="sdk/go/keepclient", harness=["keepclient/c12_sorter.go"], entry="GosymH_C12_sorter", maporder="all",
+             params=dict(quick=dict(services=3, uuid27=1), thorough=dict(services=4, uuid27=1)), witnesses=["done", "removal-checked"]),
+        dict(name="sorter-shortuuid", pkg="sdk/go/keepclient", harness=["keepclient/c12_sorter.go"], entry="GosymH_C12_sorter", maporder="all",
+             params=dict(quick=dict(services=2, uuid27=0), thorough=dict(services=3, uuid27=0)), witnesses=["done"]),
+        dict(name="hints", pkg="sdk/go/keepclient", harness=["keepclient/c12_sorter.go"], entry="GosymH_C12_hints",
+             params=dict(quick=dict(hints=2), thorough=dict(hints=3)), witnesses=["done"]),
+    ],
+)
+
+SPECS["C07"] = dict(
+    level="model_checking",
+    outside="tokens longer than 4 bytes, keys longer than 3 bytes; expiries below 2^28 (Ruby does not zero-pad); the Rails implementation itself (blob.rb is the written reference); perturbation harness uses one TTL (2 weeks) and 24 concrete hash digits",
+    assumptions=["HMAC-SHA1 modelled as an uninterpreted function per (key length, message length) with collision-freeness instantiated on the applications that occur",
+                 "clock: time.Now returns the symbolic instant chosen by the harness, seconds in [2^28, 2^33)"],
+    runs=[
+        dict(name="roundtrip", pkg="sdk/go/arvados", harness=["arvados/c07_sig.go"], entry="GosymH_C07_roundtrip", replay="engine",
+             params=dict(quick=dict(toklen=3, keylen=2), thorough=dict(toklen=4, keylen=3)), witnesses=["verified", "expired"]),
+        dict(name="perturb", pkg="sdk/go/arvados", harness=["arvados/c07_sig.go"], entry="GosymH_C07_perturb", replay="engine",
+             params=dict(quick=dict(toklen=2, keylen=2), thorough=dict(toklen=3, keylen=3)), witnesses=["invalid", "missing", "perturbed-expiry-in-the-past"]),
     ],
 )
